@@ -36,7 +36,7 @@ CLAIMED.update({
     'C15': ('vector Denominators incl. the broadcast constructor, different lattice divisors per lane', '§7 C15'),
     'C16': ('every scalar overload (and the mixed-sign cmp_*) against the same oracle the vector lanes are decided against, under every scalar instruction-set selection', '§7 C16'),
     'C17': ('convert<>, converting constructors, mask conversions and bit_cast for every pair found in the headers', '§7 C17'),
-    'C18': ('Aligned_allocator, directly and rebound through std::allocator_traits: one symbolic allocate/havoc/deallocate step per (T, A, implementation) with libc as contract-level stubs', '§7 C18'),
+    'C18': ('Aligned_allocator, directly and rebound through std::allocator_traits: one symbolic allocate/havoc/deallocate step per (T, A, implementation) with libc as contract-level stubs; a null allocate() result (acceptable only for a zero-size request) is followed into deallocate and any access through it is an obligation', '§7 C18'),
     'C20': ('prefetch_read/prefetch_write (untyped and element sizes 4, 64, 65, 200): arbitrary pointer, byte count up to 4 pages + 1 line, no access other than PREFETCH, '
             'every path leaves the loop within the unwinding bound (a failure is replayed natively under a watchdog)', '§7 C20'),
 })
